@@ -191,6 +191,16 @@ def loop_headers(body):
     return out
 
 
+def _parse_attrs(ln):
+    """key=value pairs of a directive line; values may be quoted, with \\" for a quote inside."""
+    out = {}
+    for k, v in re.findall(r'(\w+)=("(?:[^"\\]|\\.)*"|\S+)', ln):
+        if v.startswith('"'):
+            v = v[1:-1].replace('\\"', '"')
+        out[k] = v
+    return out
+
+
 def _expand_lits(line, lits):
     return re.sub(r'\$\{lit:(\w+)\}', lambda m: lits[m.group(1)], line)
 
@@ -205,8 +215,7 @@ def process_template(tmpl_text, repo):
     while i < len(lines):
         ln = lines[i]
         if ln.startswith('//@item'):
-            attrs = dict(re.findall(r'(\w+)=("[^"]*"|\S+)', ln))
-            attrs = {k: v.strip('"') for k, v in attrs.items()}
+            attrs = _parse_attrs(ln)
             directives = []
             i += 1
             while not lines[i].startswith('//@end'):
@@ -345,8 +354,7 @@ def process_template(tmpl_text, repo):
             i += 1
             continue
         if ln.startswith('//@range'):
-            attrs = dict(re.findall(r'(\w+)=("[^"]*"|\S+)', ln))
-            attrs = {k: v.strip('"').replace('\\n', '\n') for k, v in attrs.items()}
+            attrs = {k: v.replace('\\n', '\n') for k, v in _parse_attrs(ln).items()}
             directives = []
             i += 1
             while not lines[i].startswith('//@end'):
